@@ -244,7 +244,10 @@ class Avail:
 
     def _name(self, nid: int, name: str, depth: int):
         here = atom(("var", name))
-        if depth >= MAX_DEPTH or name not in self.du.local_names:
+        if name not in self.du.local_names:
+            mc = self._module_const(name)
+            return mc if mc is not None else here
+        if depth >= MAX_DEPTH:
             return here
         rd = self.du.reaching(nid, name)
         if not rd:
@@ -302,9 +305,20 @@ class Avail:
             return add(self._ssa_name(dn, name, depth + 1), self._ssa(dn, d.value, depth + 1), 1 if isinstance(d.extra, ast.Add) else -1)
         return atom(("phi", name, (dn,)))
 
+    def _module_const(self, name: str):
+        """a name of the module (not a local, not a parameter) that is an integer constant: its value"""
+        if name in self.du.local_names or name in getattr(self.cfg.func, "params", ()):
+            return None
+        try:
+            v = self.ctx.const(self.cfg.func, ast.Name(id=name, ctx=ast.Load()), None)
+        except Exception:  # noqa: BLE001
+            return None
+        return const(v) if isinstance(v, int) and not isinstance(v, bool) else None
+
     def _ssa_name(self, nid: int, name: str, depth: int):
         if name not in self.du.local_names:
-            return atom(("var", name))
+            mc = self._module_const(name)
+            return mc if mc is not None else atom(("var", name))
         rd = self.du.reaching(nid, name)
         if depth >= 4 * MAX_DEPTH or len(rd) != 1:
             return atom(("phi", name, tuple(sorted(dn for dn, _d in rd))))
